@@ -319,6 +319,49 @@ Section Prims.
                end
       | _ => stuck f s
       end
+    (* ---- the DrainFilter object: `self` of DrainFilter::next is VCtor "FIter" [VObj i] ---- *)
+    else if is "field:old_len" || is "field:new_len" || (is "field:pos" && match args with [it] => match ctor_is "FIter" it with Some _ => true | None => false end | _ => false end) then
+      match args with
+      | [it] => match ctor_is "FIter" it with
+                | Some [VObj i] =>
+                    lift_k (filter_of i) (fun f => VInt (if is "field:old_len" then f_old f else if is "field:new_len" then f_new f else f_pos f)) s k
+                | _ => stuck f s
+                end
+      | _ => stuck f s
+      end
+    else if is "field:vec" then
+      match args with
+      | [it] => match ctor_is "FIter" it with
+                | Some [VObj i] => lift_k (filter_of i) (fun f => VObj (f_vec f)) s k
+                | _ => stuck f s
+                end
+      | _ => stuck f s
+      end
+    else if is "set:self.panicked" then
+      match args with
+      | [VBool b; it] => match ctor_is "FIter" it with
+                         | Some [VObj i] => lift_k (set_filter_panicked i b) vunit s k
+                         | _ => stuck f s
+                         end
+      | _ => stuck f s
+      end
+    else if is "set:self.new_len" || (is "set:self.pos" && match args with [VInt _; _] => true | _ => false end) then
+      match args with
+      | [VInt n; it] => match ctor_is "FIter" it with
+                        | Some [VObj i] => if is "set:self.new_len" then lift_k (set_filter_new i n) vunit s k
+                                           else lift_k (set_filter_pos i n) vunit s k
+                        | _ => stuck f s
+                        end
+      | _ => stuck f s
+      end
+    else if is "call_field:pred" then
+      match args with
+      | [it; p] => match ctor_is "FIter" it, val_eptr p with
+                   | Some [VObj i], Some q => lift_k (filter_pred_at cfg i q) VBool s k
+                   | _, _ => stuck f s
+                   end
+      | _ => stuck f s
+      end
     (* ---- iterator objects: `self` of Drain / IntoIter methods is VCtor "Iter" [VObj i] ---- *)
     else if is "field:drain_pos_" || is "field:drain_end_" then
       match args with
